@@ -783,21 +783,46 @@ impl UnnormalizedMachineBuilder<'_> {
         //@]
     }
 
-    //@[ T: Iterator::filter_map is outside the supported subset (body not verified; contract assumed)
-    #[verifier::external_body]
-    //@]
     fn get_symbols_right_of_dot(&self, state_index: StateIndex) -> /*@[*/(r: /*@]*/Oset<Symbol>/*@[*/)/*@]*/
-        //@[ assumed contract: the symbols that stand right of a dot in the state
-        requires state_index.0 < self.states@.len(),
+        //@[ C17 C04 C07 get_symbols_right_of_dot: the symbols that stand right of a dot in the state
+        requires self.bwf(), state_index.0 < self.states@.len(),
         ensures r.wf(), forall|x: Symbol| #[trigger] r@.contains(x) <==>
             exists|i: StateItem| self.states@[state_index.0 as int].items@.contains(i) && #[trigger] after_dot(self.gr(), i) == Some(x),
         //@]
     {
         let state = self.state(state_index);
-        state
+        //@[ proof
+        let ghost gr = self.gr();
+        let ghost its = state.items.seq();
+        let ghost g = |item: StateItem| after_dot(gr, item);
+        proof {
+            assert forall|i: int| 0 <= i < its.len() implies item_wf(gr, #[trigger] its[i]) by { assert(state.items@.contains(its[i])); }
+        }
+        //@]
+        /*@[*/let __vx_v = /*@]*//*@{ T18_open2*//*@- state
             .items
             .iter()
-            .filter_map(|item| self.get_symbol_right_of_dot(item))
+            .filter_map( *//*@|*/__vx_filter_map_collect(&state.items, /*@}*/|item/*@[*/: &StateItem/*@]*/| /*@[*/-> (o: Option<Symbol>)
+                requires item_wf(gr, *item)
+                ensures o == g(*item)
+            { /*@]*/self.get_symbol_right_of_dot(item)/*@[*/ }/*@]*/)/*@[*/;
+        proof {
+            assert(__vx_v@ == filter_map_spec(its, g));
+            assert forall|x: Symbol| #[trigger] __vx_v@.to_set().contains(x) <==>
+                exists|i: StateItem| state.items@.contains(i) && #[trigger] after_dot(gr, i) == Some(x) by {
+                lemma_filter_map_contains(its, g, x);
+                if exists|i: StateItem| state.items@.contains(i) && #[trigger] after_dot(gr, i) == Some(x) {
+                    let it = choose|i: StateItem| state.items@.contains(i) && #[trigger] after_dot(gr, i) == Some(x);
+                    let i = choose|i: int| 0 <= i < its.len() && its[i] == it;
+                    assert(g(its[i]) == Some(x));
+                }
+                if exists|i: int| 0 <= i < its.len() && g(#[trigger] its[i]) == Some(x) {
+                    let i = choose|i: int| 0 <= i < its.len() && g(#[trigger] its[i]) == Some(x);
+                    assert(state.items@.contains(its[i]));
+                }
+            }
+        }
+        __vx_v.into_iter()/*@]*/
             .collect()
     }
 
@@ -876,21 +901,45 @@ impl UnnormalizedMachineBuilder<'_> {
         self.context.get_closure(items)
     }
 
-    //@[ T: Iterator::filter_map is outside the supported subset (body not verified; contract assumed)
-    #[verifier::external_body]
-    //@]
     fn get_transition_items(&self, state_index: StateIndex, symbol: &Symbol) -> /*@[*/(r: /*@]*/Vec<StateItem>/*@[*/)/*@]*/
-        //@[ assumed contract: the kernel of goto(state, symbol) - every item with `symbol` after the dot, advanced (via self.advance)
-        requires state_index.0 < self.states@.len(),
+        //@[ C17 C04 C07 get_transition_items: the kernel of goto(state, symbol) - every item with `symbol` after the dot, advanced
+        requires self.bwf(), state_index.0 < self.states@.len(),
         ensures forall|k: StateItem| #[trigger] r@.contains(k) <==> goto_kernel_has(self.gr(), self.states@[state_index.0 as int].items@, *symbol, k),
         //@]
     {
         let state = self.state(state_index);
-        state
+        //@[ proof
+        let ghost gr = self.gr();
+        let ghost its = state.items.seq();
+        let ghost g = |item: StateItem| if after_dot(gr, item) == Some(*symbol) { Some(advanced(item)) } else { None::<StateItem> };
+        proof {
+            assert forall|i: int| 0 <= i < its.len() implies item_wf(gr, #[trigger] its[i]) by { assert(state.items@.contains(its[i])); }
+        }
+        //@]
+        /*@[*/let __vx_r = /*@]*//*@{ T18_open*//*@- state
             .items
             .iter()
-            .filter_map(|item| self.advance(item, symbol))
-            .collect()
+            .filter_map( *//*@|*/__vx_filter_map_collect(&state.items, /*@}*/|item/*@[*/: &StateItem/*@]*/| /*@[*/-> (o: Option<StateItem>)
+                requires item_wf(gr, *item)
+                ensures o == g(*item)
+            { /*@]*/self.advance(item, symbol)/*@[*/ }/*@]*//*@{ T18_close*//*@- )
+            .collect() *//*@|*/)/*@}*//*@[*/;
+        proof {
+            assert(__vx_r@ == filter_map_spec(its, g));
+            assert forall|k: StateItem| #[trigger] __vx_r@.contains(k) <==> goto_kernel_has(gr, state.items@, *symbol, k) by {
+                lemma_filter_map_contains(its, g, k);
+                if goto_kernel_has(gr, state.items@, *symbol, k) {
+                    let it = choose|it: StateItem| state.items@.contains(it) && #[trigger] after_dot(gr, it) == Some(*symbol) && k == advanced(it);
+                    let i = choose|i: int| 0 <= i < its.len() && its[i] == it;
+                    assert(g(its[i]) == Some(k));
+                }
+                if exists|i: int| 0 <= i < its.len() && g(#[trigger] its[i]) == Some(k) {
+                    let i = choose|i: int| 0 <= i < its.len() && g(#[trigger] its[i]) == Some(k);
+                    assert(state.items@.contains(its[i]));
+                }
+            }
+        }
+        __vx_r/*@]*/
     }
 
     /// If `item` is `A -> alpha . B beta` and `symbol` is `B`,
